@@ -449,3 +449,6 @@ def run(repo: Repo, rep: Report, tier: str) -> None:
     from .c16 import construction_parity_rule
 
     construction_parity_rule(repo, rep, "C03.R7")
+    from .c02 import flush_rule
+
+    flush_rule(repo, rep, "C03.R15")
